@@ -13,6 +13,7 @@ import (
 	"runtime"
 	"strconv"
 	"strings"
+	"syscall"
 	"unicode/utf8"
 
 	"go.1password.io/spg"
@@ -216,24 +217,60 @@ func sepStreamIndependent(sep string) bool {
 // nestedCall: a complete, unrelated use of the library on its own scripted source, made while an
 // outer call is in progress (see scripted.reenter). crypto/rand.Reader is the outer call's reader
 // while this runs; it is swapped for the nested script and put back.
-func nestedCall() {
+func nestedCall() { nestedCallAt(1) }
+
+// how deep the calls-within-calls go (reenter depth), and whether any nested call misbehaved
+var nestDepth = 1
+var nestedFailed string
+
+// nestedCallAt: a complete use of the library at nesting level d, itself interrupted (while below
+// nestDepth) by a further one made from inside ITS source's Read. Every level uses the same recipe
+// on the same bytes: every level must produce the same password.
+func nestedCallAt(d int) {
 	outer := crand.Reader
-	defer func() { crand.Reader = outer; recover() }()
+	defer func() {
+		crand.Reader = outer
+		if r := recover(); r != nil && nestedFailed == "" {
+			nestedFailed = fmt.Sprintf("level-%d-panicked", d)
+		}
+	}()
 	nb := make([]byte, 4*64)
 	for i := range nb {
 		nb[i] = byte(37*i + 11)
 	}
-	crand.Reader = &scripted{bytes: nb}
-	cr := spg.CharRecipe{Length: 9, Allow: spg.Letters | spg.Digits, Require: spg.Digits}
-	_, _ = cr.Generate()
-	_ = cr.Entropy()
+	sc := &scripted{bytes: nb}
+	if d < nestDepth {
+		sc.reenterAt = 2
+		sc.reenter = func() { nestedCallAt(d + 1) }
+	}
+	crand.Reader = sc
+	// the wordlist generation first: the further nested call is made from inside IT (its second read),
+	// so that at depth d there are d wordlist generations in progress
 	if wl, err := spg.NewWordList([]string{"north", "south", "east", "west"}); err == nil {
 		wr := spg.NewWLRecipe(3, wl)
 		wr.SeparatorFunc = spg.SFDigits1
 		wr.Capitalize = spg.CSRandom
-		_, _ = wr.Generate()
+		p, err := wr.Generate()
+		if (err != nil || p == nil) && nestedFailed == "" {
+			nestedFailed = fmt.Sprintf("level-%d-wordlist-recipe-refused", d)
+		} else if p != nil {
+			if nestedFirst == "" {
+				nestedFirst = p.String()
+			} else if p.String() != nestedFirst && nestedFailed == "" {
+				nestedFailed = fmt.Sprintf("level-%d-gave-another-password", d)
+			}
+		}
 	}
+	// a recipe without requirements: honoured under every budget that permits at least one attempt
+	// (the operation's own T= / fr= are in force here too)
+	cr := spg.CharRecipe{Length: 9, Allow: spg.Letters | spg.Digits}
+	if _, err := cr.Generate(); err != nil && nestedFailed == "" && spg.MaxTrials >= 1 {
+		nestedFailed = fmt.Sprintf("level-%d-character-recipe-refused", d)
+	}
+	_ = cr.Entropy()
 }
+
+var nestedFirst string
 
 func bitsSet(v uint32) int {
 	n := 0
@@ -935,10 +972,15 @@ func (e *executor) exec1(line, lean string) string {
 			s2 := readerFor(a)
 			s2.reenterAt = a.int("reenter")
 			s2.reenter = nestedCall
+			nestDepth, nestedFirst = maxInt(a.int("depth"), 1), ""
 			var p2 *spg.Password
 			var err2 error
 			ro2 := withReader(s2, func() { p2, err2 = r.Generate() })
 			capt.take()
+			if nestedFailed != "" {
+				oracle += " REENTRANCY-DEPENDENT=nested(" + nestedFailed + ")"
+				nestedFailed = ""
+			}
 			if reentryBlocked {
 				oracle += " REENTRANCY-DEPENDENT=blocked(a call made while another is in progress never returned)"
 				reentryBlocked = false
@@ -1045,6 +1087,12 @@ func (e *executor) exec1(line, lean string) string {
 
 	case "wlgen", "wlent":
 		defer setCfg(a)()
+		if a["sfnone"] == "reassigned" {
+			// the exported preset variables are the program's to assign; a recipe goes by its own fields
+			oldNone := spg.SFNone
+			spg.SFNone = func() (string, spg.FloatE) { return "#", 4.5 }
+			defer func() { spg.SFNone = oldNone }()
+		}
 		wl, werr, after := e.wordList(a)
 		if werr != nil {
 			return "err empty-list"
@@ -1054,6 +1102,12 @@ func (e *executor) exec1(line, lean string) string {
 			_ = id
 		}
 		r = spg.NewWLRecipe(a.int("L"), wl)
+		if len(a["tape"])%2 == 1 {
+			// the caller copies the recipe it was handed (a template, a snapshot) and configures the copy
+			c := *r
+			r.SeparatorChar, r.Capitalize, r.Length = "ORIGINAL-NOT-THE-COPY", spg.CSAll, 1
+			r = &c
+		}
 		if id, ok := a["sepobj"]; ok && (strings.HasPrefix(a["sep"], "recipe:") || strings.HasPrefix(a["sep"], "preset:")) {
 			// one separator function shared by many calls and recipes, as a caller would keep it
 			key := id + "|" + a["sep"]
@@ -1157,9 +1211,14 @@ func (e *executor) exec1(line, lean string) string {
 			s2 := readerFor(a)
 			s2.reenterAt = a.int("reenter")
 			s2.reenter = nestedCall
+			nestDepth, nestedFirst = maxInt(a.int("depth"), 1), ""
 			var p2 *spg.Password
 			ro2 := withReader(s2, func() { p2, _ = r.Generate() })
 			capt.take()
+			if nestedFailed != "" {
+				so += " REENTRANCY-DEPENDENT=nested(" + nestedFailed + ")"
+				nestedFailed = ""
+			}
 			if reentryBlocked {
 				so += " REENTRANCY-DEPENDENT=blocked(a call made while another is in progress never returned)"
 				reentryBlocked = false
@@ -1470,7 +1529,21 @@ func (e *executor) execCli(a opArgs, lean string) string {
 		if ft, ok := a["filetext"]; ok {
 			content = decCps(ft) // the file's text as given: any space runs, no final newline added
 		}
-		os.WriteFile(path, []byte(content), 0o644)
+		if a["pipe"] == "1" {
+			// the word file need not be a regular file: a named pipe (process substitution, /dev/stdin)
+			path = filepath.Join(e.tmpdir, "words.fifo")
+			os.Remove(path)
+			if err := syscall.Mkfifo(path, 0o600); err == nil {
+				go func(p, c string) {
+					if f, err := os.OpenFile(p, os.O_WRONLY, 0); err == nil {
+						f.Write([]byte(c))
+						f.Close()
+					}
+				}(path, content)
+			}
+		} else {
+			os.WriteFile(path, []byte(content), 0o644)
+		}
 		for i := range argv {
 			argv[i] = strings.Replace(argv[i], "@FILE", path, 1)
 		}
